@@ -123,7 +123,7 @@ def generate(tier, seed):
     # code units whose order by value differs from the order of their low bytes (a byte-wise memcmp on a little-endian
     # target orders these wrongly), for the multi-byte character types; sign-crossing units for the one-byte types
     for ct, units in (("c16", [0xFF, 0x100, 0x1FE, 0x201, 0xFF00]), ("c32", [0xFF, 0x100, 0xFFFF, 0x10000, 0x01000000]),
-                      ("wchar", [0xFF, 0x100, 0x10000, 0x7FFFFF00]), ("c8", [0x7F, 0x80, 0xFF, 1])):
+                      ("wchar", [0xFF, 0x100, 0x10000, 0x7FFFFF00, 0x80000010, 0xFFFFFFFF]), ("c8", [0x7F, 0x80, 0xFF, 1])):
         for a in strings(units, 2):
             for b in strings(units, 2):
                 add("compare a=%s b=%s ct=%s" % (fmt_list(a), fmt_list(b), ct), "compare/" + ct)
